@@ -93,7 +93,7 @@ theorem section_codec_roundtrip (chrom : Nat) (items : List CD.Item) (hc : chrom
 /-- The hypotheses are satisfiable: two chromosomes, three values, one item per slot. -/
 example : ∃ o cs, ValidInput o cs ∧ cs.length = 2 := ⟨o1, cs1, by
   constructor
-  · exact { ips1 := by decide, ips16 := by decide, b2 := by decide, b16 := by decide, zc := by decide,
+  · exact { ips1 := by decide, b2 := by decide, b16 := by decide, zc := by decide,
             zdir := by decide, nonempty := by decide, nchroms := by decide,
             chroms := by
               intro c hc
